@@ -34,6 +34,8 @@ HAND = [
     "Wrap: Body-; Body: val=INT;",
     "M: w=Wrap; Wrap: Link; Link: Body-; Body: val=INT | 'x' Wrap;",
     "M: x=A y=B; A: B; B: C; C: /c+/ | INT;",
+    # an attribute assigned with '?=' and again with '=' / '+=' in every order and nesting that the compiler accepts
+    "Model: flag?='on' ('+' flag=ID)* (opt?='x' opt=INT)? ('k' k=INT)+;",
 ]
 BAD_PARAMS = ["[foo]", "[ws]", "[split]", "[split='']", "[skipws='x']", "[ws=]", "[noskipws, noskipws, ws='a', ws='b']", "[split=' ', ws='\\\\q']"]
 BAD_ESCAPES = [r"'\N{foo}'", r"'\x'", r"'\u12'", r"'\U0011'", r"'\N{BULLET}'", r"'a\\'", '"\\N{nope}x"']
@@ -68,10 +70,16 @@ def mutations(text):
                 yield "selfref@%d" % i, J(toks[:i + 2] + [t, ";"] + toks[i:])
                 yield "selfref-choice@%d" % i, J(toks[:i + 2] + [t, "|", "'q'", ";"] + toks[i:])
                 yield "mutual@%d" % i, "Zz1: Zz2; Zz2: Zz1; " + J(toks)
+                # reference cycles that do not go through the rule they are entered from
+                yield "tail-cycle@%d" % i, J(toks) + " Zz0: Zz1; Zz1: Zz2; Zz2: Zz1;"
+                yield "tail-selfcycle@%d" % i, J(toks) + " Zz0: Zz1; Zz1: Zz1;"
+                yield "tail-cycle-suppressed@%d" % i, J(toks) + " Zz0: 'z' Zz1-; Zz1: Zz2; Zz2: Zz3; Zz3: Zz2;"
+                yield "comment-cycle@%d" % i, J(toks) + " Comment: Cx; Cx: Cy; Cy: Cx;"
             if i >= 1 and toks[i - 1] in ("=", "+=", "*=", "?="):
                 yield "link-basetype@%d" % i, J(toks[:i] + ["[INT]"] + toks[i + 1:])
                 yield "link-undefined@%d" % i, J(toks[:i] + ["[Nope]"] + toks[i + 1:])
                 yield "link-qualified-undefined@%d" % i, J(toks[:i] + ["[no.Such]"] + toks[i + 1:])
+                yield "link-matchrule-cycle@%d" % i, J(toks[:i] + ["[%s|Nm9]" % toks[0]] + toks[i + 1:]) + " Nm9: Nx9; Nx9: Ny9; Ny9: Nx9;"
                 for br in BAD_RREL:
                     yield "rrel%s@%d" % (br, i), J(toks[:i] + [br] + toks[i + 1:])
                 yield "mod-on-plain@%d" % i, J(toks[:i + 1] + ["[',']"] + toks[i + 1:])
